@@ -9,4 +9,6 @@ require (
 	github.com/spaolacci/murmur3 v1.1.0
 )
 
+require golang.org/x/exp v0.0.0-20240604190554-fc45aab8b7f8 // indirect
+
 replace github.com/fluhus/biostuff => /repo
